@@ -42,6 +42,13 @@ CORPUS = [
     (45, dict(method='pit', dim=2, fold=False, auto=False, userpit='some', ufold='same', train=False, multi=False, excl=False, mixed=True)),
     (46, dict(method='mps', dim=2, train=True, multi=False, mixed=True)),
     (47, dict(method='mps', dim=2, train=False, multi=False, mixed=True)),
+    # forward() branching on self.training, model handed over in training mode
+    (51, dict(method='pit', dim=2, fold=False, auto=True, userpit='none', train=True, multi=False, excl=False, tbranch='logsoftmax')),
+    (52, dict(method='pit', dim=1, fold=True, auto=True, userpit='none', train=True, multi=False, excl=False, tbranch='aux')),
+    (53, dict(method='pit', dim=2, fold=True, auto=False, userpit='some', ufold='same', train=True, multi=False, excl=False, tbranch='subblock')),
+    (54, dict(method='pit', dim=1, fold=False, auto=True, userpit='none', train=True, multi=False, excl=False, tbranch='train-relu')),
+    (55, dict(method='sn', dim=2, train=True, multi=False, tbranch='logsoftmax')),
+    (56, dict(method='mps', dim=2, train=True, multi=False, tbranch='train-relu')),
 ]
 
 
@@ -73,13 +80,25 @@ def gen_cases(ctx):
                 add(dict(method='sn', dim=dim, train=train, multi=rng.random() < 0.3))
                 add(dict(method='mps', dim=dim, train=train, multi=False))
                 add(dict(method='mps', dim=2, train=train, multi=False))
+    # forward() that reads self.training (extra log_softmax / relu, auxiliary head while training, a traced sub-block):
+    # fx bakes the branch at trace time, the eval-time function is the one that must be preserved
+    for rep in range(n):
+        for train in (False, True):
+            for var in ('logsoftmax', 'train-relu', 'aux', 'subblock'):
+                fold = rng.random() < 0.5
+                if rng.random() < 0.6:
+                    add(dict(method='pit', dim=rng.choice([1, 2]), fold=fold, auto=True, userpit='none', train=train, multi=rng.random() < 0.25, excl=False, tbranch=var))
+                else:
+                    add(dict(method='pit', dim=rng.choice([1, 2]), fold=fold, auto=False, userpit='some', ufold='same', train=train, multi=False, excl=False, tbranch=var))
+            add(dict(method='sn', dim=rng.choice([1, 2]), train=train, multi=False, tbranch=rng.choice(['logsoftmax', 'train-relu', 'aux', 'subblock'])))
+            add(dict(method='mps', dim=2, train=train, multi=False, tbranch=rng.choice(['logsoftmax', 'train-relu', 'aux', 'subblock'])))
     return cases
 
 
 def cfg_tag(cfg):
     if cfg['method'] != 'pit':
-        return '%s%s:%s' % ('mixed-flags:' if cfg.get('mixed') else '', cfg['method'], 'train' if cfg['train'] else 'eval')
-    return ('mixed-flags:' if cfg.get('mixed') else '') + 'pit:%s:%s:%s%s:%s' % ('auto' if cfg['auto'] else 'import', 'userpit-' + cfg.get('userpit', 'none'), 'fold' if cfg['fold'] else 'nofold',
+        return '%s%s%s:%s' % ('mixed-flags:' if cfg.get('mixed') else '', 'training-branch:' if cfg.get('tbranch') else '', cfg['method'], 'train' if cfg['train'] else 'eval')
+    return ('mixed-flags:' if cfg.get('mixed') else '') + ('training-branch:' if cfg.get('tbranch') else '') + 'pit:%s:%s:%s%s:%s' % ('auto' if cfg['auto'] else 'import', 'userpit-' + cfg.get('userpit', 'none'), 'fold' if cfg['fold'] else 'nofold',
                                   ':int' if cfg.get('integer') else '', 'train' if cfg['train'] else 'eval')
 
 
